@@ -398,7 +398,7 @@ def run(prop, tier, seed):
         # the SHIPPED PROGRAM under real concurrency: the free-running groups are also sent to the real dirk binary, every request
         # from its own goroutine over TLS; the final database is read through badger
         bin_groups = 0
-        if prop == "C04":
+        if prop == "C04" and not deadlocks:     # (requests that never return are already established in-process: no need to wait for the binary to hang too)
             bscs = [dict(s_, id=s_["id"] + "-bin") for s_ in scenarios if "-free" in s_["id"]][:12 if tier == "quick" else 120]
             bev, brc, berr = run_driver_parallel_bin(bscs, wd, build_dirk())
             if brc != 0:
